@@ -58,6 +58,9 @@ def load_model(repo='/repo'):
     for h in inv['headers'].values():
         all_enums.update(h['enums'])
     model = {'spec': spec, 'inv': inv, 'fmts': {}, 'enums': all_enums, 'notes': []}
+    for hn, h in inv['headers'].items():
+        for u in h.get('unparsed', []):
+            model['notes'].append('%s: text the inventory cannot classify as a prototype (macro-generated declarations?): %s' % (hn, u[:100]))
     claimed = set()
     for key, fs in spec['formats'].items():
         f = Fmt()
